@@ -993,7 +993,7 @@ def execute(ctx, b, sched_file, name, procs=8, timeout=300, xsplit=-1, net_sync=
         except Exception:
             pass
     return dict(runs=runs, chk=chk, failures=rr["failures"], reached=reached, schedules=rr["schedules"], abandoned=rr["abandoned"], images=images,
-                untested_images=untested)
+                untested_images=untested, dirs=list(rr["dirs"]))
 
 
 def judge(prop, runs, chk, failures, images, compare=True):
@@ -1046,6 +1046,7 @@ def run_property(ctx, prop, tier=None, scenarios=None, procs=8):
     scs = scenarios if scenarios is not None else load_scenarios(prop)
     t0 = time.time()
     runs, chk, failures, reached, images, untested = {}, {}, [], {}, {}, []
+    cq_dirs = []     # directories whose observed.txt / verdict.txt lib/coqeval.py samples
     tmo = 300 if tier == "quick" else 3000
 
     def absorb(e, prefix=""):
@@ -1068,12 +1069,14 @@ def run_property(ctx, prop, tier=None, scenarios=None, procs=8):
         e = execute(ctx, b, cf, "corpus-run-%s" % prop, procs=procs, timeout=tmo)
         absorb(e)
         failures += e["failures"]
+        cq_dirs += e["dirs"]
     sf, gstats, glog = gen_schedules(ctx, b, scs, tier, ctx.seed, name="gen-%s" % prop)
     if glog:
         ctx.note("T2-svsched: " + glog)
     e = execute(ctx, b, sf, "run-%s" % prop, procs=procs, timeout=tmo)
     absorb(e)
     failures += e["failures"]
+    cq_dirs += e["dirs"]
     abandoned = e.get("abandoned", 0)
     j = judge(prop, runs, chk, failures, images)
 
@@ -1171,6 +1174,12 @@ def run_property(ctx, prop, tier=None, scenarios=None, procs=8):
     if compared and len(ctx.coverage["samples"]) < 3:
         sid = sorted(compared)[0]
         ctx.coverage["samples"].append({"schedule": sid, "observed_head": compared[sid].raw[:40]})
+    # extraction + driver vs the Gallina definitions: a sample of the checked schedules is evaluated inside Coq (lib/coqeval.py)
+    try:
+        from . import coqeval
+        coqeval.hook(ctx, "T2-svsched", coqeval.sv_sample, cq_dirs)
+    except Exception as ex:  # noqa
+        ctx.note("coq/driver tie T2-svsched not run: %r" % (ex,))
     return dict(ok_build=True, runs=runs, chk=chk, judged=j, failures=failures, stats=gstats, reached=reached, instr=ins, images=images)
 
 
